@@ -45,7 +45,8 @@ Execution model of ``VirtualParallel``
   process, in *delivery order* (``mode="shared"``: worst case for stale per-process
   state) or each in a fresh ``fork`` of the harness process (``mode="isolated"``: the
   "as many workers as jobs" extreme; jobs of nested sites stay inside their parent
-  job's fork);
+  job's fork; note that numba/sympy-heavy jobs run ~100x slower in a fresh fork, a whole
+  mapper run costs minutes of CPU in this mode);
 * with ``pickle=True`` (default) the whole task crosses ``cloudpickle.dumps/loads``
   when the site is opened and its result crosses it again, as with loky: a job that
   mutates its argument does not leak to the caller, unpicklable things fail.
@@ -865,7 +866,8 @@ def conformance_run(fn: Callable[[], Any], schedule: Schedule, *, n_jobs: int | 
 
     Returns {"virtual", "real": fn's values (or "raise:..." strings), "equal",
     "achieved": the real completion order was the schedule's at every site,
-    "same_sites": both runs opened the same (seq, n, return_as) sites,
+    "same_sites": both runs opened the same top-level (seq, n, return_as) sites (sites
+    opened inside jobs are invisible on the real backend: they live in the workers),
     "virtual_trace"/"real_trace": [SiteRecord.to_json()], "step", "attempts"}."""
 
     raised = []
@@ -897,6 +899,7 @@ def conformance_run(fn: Callable[[], Any], schedule: Schedule, *, n_jobs: int | 
         step *= 2
     eq = (v == r) if equal is None else bool(equal(v, r))
     return {"virtual": v, "real": r, "equal": eq, "achieved": achieved,
-            "same_sites": [x.key() for x in sv.trace] == [x.key() for x in sr.trace],
+            "same_sites": ([x.key() for x in sv.trace if not x.nested]
+                           == [x.key() for x in sr.trace if not x.nested]),
             "virtual_trace": vt, "real_trace": [x.to_json() for x in sr.trace],
             "step": step, "attempts": attempts}
